@@ -509,16 +509,18 @@ def binop_tables(repo: Path):
             raise ExtractError(T, f"operator pattern not a list of BinaryOp variants: {pat!r}")
         ops = [o.split("::")[1] for o in ops]
         a = arm.strip()
-        if a.startswith("match eq(lhs, rhs)"):
-            for o in ops:
-                delegates[o] = "eq"
-            continue
-        if a.startswith("if let Some(v) = ref_eq(lhs, rhs)"):
-            if "Err(new_invalid_op_types())" not in a:
-                raise ExtractError(T, "ref_eq arm without the invalid-types fallback")
-            for o in ops:
-                delegates[o] = "ref_eq"
-            continue
+        # an arm that hands both operands to `eq` / `ref_eq` (however the result is then taken apart: `match`, `if let`, …)
+        if not re.search(r"match \(lhs, rhs\)", a):
+            if re.search(r"(?<![\w:])eq\(lhs, rhs\)", a):
+                for o in ops:
+                    delegates[o] = "eq"
+                continue
+            if re.search(r"(?<![\w:])ref_eq\(lhs, rhs\)", a):
+                if "new_invalid_op_types()" not in a:
+                    raise ExtractError(T, "ref_eq arm without the invalid-types fallback")
+                for o in ops:
+                    delegates[o] = "ref_eq"
+                continue
         mm = re.match(r"match \(lhs, rhs\) \{", a)
         if not mm:
             raise ExtractError(T, f"operator arm for {ops} is neither a delegate nor `match (lhs, rhs)`: {a[:80]!r}")
